@@ -56,7 +56,8 @@ def subtree(feature: str, token: str, workdir: str) -> dict:
         return {"t2": {"quality": {"enabled": False, "shadow": False, "trace_dir": os.path.join(workdir, "qtraces"), "redact": False,
                                    "lexical": {"bm25_k1": 2.0 * v, "bm25_b": 0.1 * v, "stopwords": "none"},
                                    "fusion": {"mode": "score_interp", "alpha_semantic": 0.1 * v},
-                                   "mmr": {"enabled": True, "lambda": 0.1 * v, "k": v}}}}
+                                   # a diversity weight above 1/2 and a head that spans the hits: MMR, if it ran, would reorder the near-duplicate memories
+                                   "mmr": {"enabled": True, "lambda": 0.95 if v == 1 else 0.7, "k": 4 + v}}}}
     if feature == "hybrid":
         return {"t2": {"hybrid": {"enabled": False, "use_graph": v == 1, "anchor_top_m": v, "walk_hops": v, "edge_threshold": 0.0, "lambda_graph": 1.0,
                                   "damping": 0.9, "degree_norm": "invdeg", "max_bonus": 5.0 * v, "k_max": v}}}
@@ -153,6 +154,19 @@ TEXTS = ["I like apple and banana", "cherry pie with dates", "apple"]
 GRAPHS2 = {"g:other": {"nodes": [("m:apple", "apple", []), ("m:pear", "pear", ["fruit"])], "edges": [("f1", "m:apple", "m:pear", 0.75, "supports")]}}
 
 
+def _episodes_with_twins():
+    """the default memories, each fact stored a second time under another id (same owner, text, vector, a day later): the
+    copies sit at adjacent ranks of every retrieval, which is where a diversity re-ranker (t2.quality.mmr) acts first"""
+    from .. import engine as E
+    eps = E.default_episodes()
+    twins = []
+    for i, e in enumerate(eps[:4]):
+        t = copy.deepcopy(e)
+        t["id"] = f"ep{i}twin"
+        twins.append(t)
+    return eps + twins
+
+
 def run_pair(case) -> List[Tuple[str, str, str]]:
     from ..turnrun import Session
     from .. import engine as E
@@ -197,7 +211,7 @@ def run_pair(case) -> List[Tuple[str, str, str]]:
                     w.text = TEXTS[t]
                     w.run({"plan_refl": True})
                 del w
-            s = Session(os.path.join(work, name), base_cfg=cfg, graphs=graphs)
+            s = Session(os.path.join(work, name), base_cfg=cfg, graphs=graphs, episodes=_episodes_with_twins())
             s.raw_cfg = True
             s.log_dir = os.path.join(work, name, "logs")
             s.state["graph"] = copy.deepcopy(gel)
